@@ -131,8 +131,18 @@ func (w *wgen) simple() string {
 		return w.pick(wvars) + "=$(echo " + w.val() + ")"
 	case k < 57:
 		return "arr=(" + w.val() + " q " + w.val() + `); echo "${arr[1]}" "${#arr[@]}"`
-	case k < 61:
+	case k < 59:
 		return `arr+=(` + w.val() + `); for e in "${arr[@]}"; do echo "<$e>"; done`
+	case k < 61:
+		// an element unset inside a subshell / command substitution must not touch the parent's array
+		switch w.r.IntN(3) {
+		case 0:
+			return `( unset 'arr[0]'; echo "${#arr[@]}" "${arr[@]}" ); echo "${arr[0]}" "${#arr[@]}" "${arr[@]}"`
+		case 1:
+			return `c=$(unset 'arr[0]'; echo "${arr[@]}"); echo "$c" "${arr[@]}"`
+		default:
+			return `arr=(p q r s); ( unset 'arr[1]'; arr+=(t); echo "${arr[@]}" ); echo "${arr[@]}"`
+		}
 	case k < 66:
 		return `read -r a b <<< ` + w.pick([]string{`"p q r"`, `"$c"`, `one`}) + `; echo "$a|$b"`
 	case k < 70:
